@@ -1,9 +1,11 @@
 """C06 (bounded tier) -- prebuilt instances form a well-formed, correctly typed population.
 
-A case is (action home, generator seed, size, forced statement kinds): bounded/_c06_gen.py generates a well-formed,
-name-resolved OAL program over the seed model of bounded/_c06_model.py together with the facts the property speaks
-about (computed from the generator's own tree and printed text).  The real `prebuild_action` runs on a fresh copy of the
-model and the instances it created are inspected.
+A case is (action home, generator seed, size, forced statement kinds [, reuse, skeleton]): bounded/_c06_gen.py generates a
+well-formed, name-resolved OAL program over the seed model of bounded/_c06_model.py together with the facts the property
+speaks about (computed from the generator's own tree and printed text).  The real `prebuild_action` runs on a fresh copy of
+the model and the instances it created are inspected.  `reuse`: probability with which a new variable is named like a variable
+of a block that has ended (one name, several variables, other types); `skeleton`: prescribed block structure with prescribed
+declarations and uses of named variables (item scopes), everything else generated as usual.
 
 Clauses
   prebuild-raises                        prebuild_action raised on a well-formed program
@@ -17,7 +19,10 @@ Clauses
   r661-previous-designates-predecessor   ... and Previous_Statement_ID of the k-th member designates the (k-1)-th, none for the first
   r816-neighbours / r816-next-designates-successor     same for V_PAR.Next_Value_ID of the parameters of an invocation
   r604-chain                             ACT_LNK of a select-related, read from R637 along Next_Link_ID, are the steps in source order
-  variable-block                         a declared variable is not one V_VAR related (R823) to the block that declares it
+  variable-block                         a declared variable is not exactly one V_VAR related (R823) to the block that declares it (one
+                                         name may be declared by several blocks: nested and sibling blocks, after a block has ended);
+                                         a V_VAR of a declared name in a block that does not declare it; the variable a variable value
+                                         designates (R805 / R808 / R809) belongs to another block than the one declaring the name there
   value-structure                        an operand / parameter / condition value of the statement cannot be reached
   value-type                             V_VAL related (R820) to another data type than the expression has under OAL typing
 """
@@ -215,6 +220,7 @@ class Checker(object):
             if kind_of(i) == 'ACT_SMT':
                 self.smt_by_pos.setdefault((i.LineNumber, i.StartPosition), []).append(i)
         self.block_of_list = {}
+        self.var_refs = []          # (V_VAL, variable node, statement) of every variable value reached
 
     def fail(self, clause, observed, required):
         self.out.append(dict(clause=clause, observed=observed, required=required))
@@ -374,7 +380,9 @@ class Checker(object):
         if not self.type_of(v, node, s, role):
             return
         k = node['k']
-        if k == 'bin':
+        if k == 'var' and node.get('cell') is not None:
+            self.var_refs.append((v, node, s))
+        elif k == 'bin':
             b = nav(v, 'V_BIN', 801)
             self.value(nav(b, 'V_VAL', 802), node['l'], s, 'left operand of %s' % node['op'])
             self.value(nav(b, 'V_VAL', 803), node['r'], s, 'right operand of %s' % node['op'])
@@ -436,26 +444,59 @@ class Checker(object):
             self.fail('r604-chain', dict(steps_from_R637_along_Next_Link_ID=seq), dict(statement=s['head'], steps=want))
 
     # ---- variables ----
+    def declaring_blocks(self, stmt):
+        """ACT_BLK instances that may hold a variable declared by the statement (None when a block could not be determined)."""
+        blocks = [self.block_of_list.get(stmt['list'])]
+        if stmt['act'] == 'ACT_FOR':
+            blocks.append(self.block_of_list.get(stmt['blk']))      # loop variable: enclosing or loop block accepted
+        return None if any(b is None for b in blocks) else blocks
+
     def check_variables(self):
         vars_by_name = {}
         for i in self.new:
             if kind_of(i) == 'V_VAR':
-                vars_by_name.setdefault(i.Name, []).append(i)
+                vars_by_name.setdefault(i.Name, []).append((i, nav(i, 'ACT_BLK', 823)))
+        declared = {}           # name -> ids of the blocks that declare a variable of that name
+        unknown = set()
         for s in self.all_statements():
             for name, ty in s.get('decl', []):
-                vs = vars_by_name.get(name, [])
-                ok_blocks = [self.block_of_list.get(s['list'])]
-                if s['act'] == 'ACT_FOR':
-                    ok_blocks.append(self.block_of_list.get(s['blk']))      # loop variable: enclosing or loop block accepted
-                if any(b is None for b in ok_blocks):
+                ok_blocks = self.declaring_blocks(s)
+                if ok_blocks is None:
+                    unknown.add(name)
                     continue
-                if len(vs) != 1:
-                    self.fail('variable-block', '%d V_VAR named %s' % (len(vs), name), dict(statement=s.get('head', s['act']), required='one V_VAR'))
-                    continue
-                b = nav(vs[0], 'ACT_BLK', 823)
-                if b is None or id(b) not in [id(x) for x in ok_blocks]:
+                declared.setdefault(name, set()).update(id(b) for b in ok_blocks)
+                here = [v for v, b in vars_by_name.get(name, []) if b is not None and id(b) in [id(x) for x in ok_blocks]]
+                if len(here) != 1:
+                    self.fail('variable-block', dict(variable=name, v_var_in_the_declaring_block=len(here),
+                                                     blocks_of_v_var_with_that_name=[None if b is None else b.Block_ID for v, b in vars_by_name.get(name, [])]),
+                              dict(statement=s.get('head', s['act']), line=s['line'], declaring_block=ok_blocks[0].Block_ID,
+                                   required='one V_VAR of that name related (R823) to the block of the declaring statement list'))
+        for name, blocks in declared.items():
+            if name in unknown:
+                continue
+            for v, b in vars_by_name.get(name, []):
+                if b is None or id(b) not in blocks:
                     self.fail('variable-block', dict(variable=name, block=None if b is None else b.Block_ID),
-                              dict(statement=s.get('head', s['act']), line=s['line'], required='the block of the declaring statement list'))
+                              'every V_VAR named %s belongs to a block in which the program declares %s' % (name, name))
+        for v, node, s in self.var_refs:
+            ok_blocks = self.declaring_blocks(node['cell']['stmt']) if node['cell']['stmt'] is not None else None
+            if ok_blocks is None:
+                continue
+            var = None
+            for sub, rel in (('V_TVL', 805), ('V_IRF', 808), ('V_ISR', 809)):
+                x = nav(v, sub, 801)
+                if x is not None:
+                    var = nav(x, 'V_VAR', rel)
+            if var is None:
+                self.fail('value-structure', 'no V_VAR across R805/R808/R809', dict(statement=s.get('head', s['act']), expression=node['s']))
+                continue
+            b = nav(var, 'ACT_BLK', 823)
+            if var.Name != node['name'] or b is None or id(b) not in [id(x) for x in ok_blocks]:
+                d = node['cell']['stmt']
+                self.fail('variable-block', dict(designated_variable=var.Name, block=None if b is None else b.Block_ID),
+                          dict(statement=s.get('head', s['act']), line=s['line'], expression=node['s'],
+                               declared_by=d.get('head', d['act']), declared_at_line=d['line'], declaring_block=ok_blocks[0].Block_ID,
+                               required='the value designates the variable of the block that declares the name in scope here'))
 
 
 # ------------------------------------------------------------------ a case -----------------------------------------------------------
@@ -463,7 +504,7 @@ def run_case(case):
     from bridgepoint import prebuild
     home = case['home']
     rng = random.Random(case['gen'])
-    text, stmts, lists = G.generate(rng, home, case['size'], case.get('forced'))
+    text, stmts, lists = G.generate(rng, home, case['size'], case.get('forced'), case.get('reuse') or 0.0, case.get('skeleton'))
     if case.get('text') is not None and case['text'] != text:
         return [dict(clause='generator-drift', observed=text, required=case['text'])]
     m = R.load(M.model_text())
@@ -497,9 +538,14 @@ def run_case(case):
     return res
 
 
-def make_case(home, gen, size, forced=None):
-    text, _, _ = G.generate(random.Random(gen), home, size, forced)
-    return dict(home=home, gen=gen, size=size, forced=forced, text=text)
+def make_case(home, gen, size, forced=None, reuse=None, skeleton=None):
+    text, _, _ = G.generate(random.Random(gen), home, size, forced, reuse or 0.0, skeleton)
+    case = dict(home=home, gen=gen, size=size, forced=forced, text=text)
+    if reuse:
+        case['reuse'] = reuse
+    if skeleton is not None:
+        case['skeleton'] = skeleton
+    return case
 
 
 def check_case(ctx, case):
@@ -547,7 +593,7 @@ def systematic_cases(pairs=True):
             'select any/many from instances (+where), select one/any/many related by chains of 1-3 steps (+where), function/bridge/'
             'operation invocations, control stop, return, if/elif/else, while, for each, break, continue): each alone x3, (thorough: every '
             'ordered pair,) each nested in if/while/for; 6 if/elif/else ladders; in 6 action homes (function void/integer, bridge, instance and class operation, derived attribute)',
-      shards=6, weight=2)
+      shards=3, weight=2)
 def statement_kinds(ctx):
     for i, case in enumerate(systematic_cases(pairs=not ctx.quick)):
         if i % ctx.nshards != ctx.shard:
@@ -564,28 +610,120 @@ def statement_kinds(ctx):
                  'integer/real operands, event statements (the seed model has no state machines)')
 
 
-def random_cases(quick, seed):
-    sizes = [2, 3, 4, 5, 6, 8, 10, 12] if quick else [2, 3, 4, 5, 6, 8, 10, 12, 16, 20, 25]
-    per = 48 if quick else 800
-    for size in sizes:
-        for n in range(per):
-            for home in HOMES[:4] if n % 3 else HOMES:
-                yield (home, 'rnd/%s/%s/%d/%d' % (seed, home, size, n), size)
+# ------------------------------------------------------------------ scopes -----------------------------------------------------------
+HOWS = ['integer', 'real', 'string', 'boolean', 'Colour', 'unique_id', 'create:A', 'create:B', 'any:L', 'many:A', 'many:B', 'where:A',
+        'handle', 'related', 'call']
+INNER = ['if', 'elif', 'else', 'while', 'for']
 
 
-@item('random-programs', stands_in_for=['bridgepoint.prebuild.prebuild_action', 'bridgepoint.prebuild.ActionPrebuilder'],
-      bound='seeded random programs of 2..12 (quick) / 2..25 (thorough) statements, nesting depth <= 3, expressions of depth <= 3 over '
-            'literals, variables, attribute/parameter reads, enumerators, constants, arithmetic, comparisons, and/or/not, cardinality/empty/'
-            'not_empty, invocations with named parameters; 48 (quick) / 800 (thorough) programs per size and home; non-trivial = distinct text',
-      shards=10, weight=3)
-def random_programs(ctx):
-    for i, (home, gen, size) in enumerate(random_cases(ctx.quick, ctx.seed)):
+def inner(kind, body):
+    """A block statement of the given kind whose (elif / else: last) body is `body`."""
+    return {'if': ['if', body, [], None], 'elif': ['if', [['x']], [body], None], 'else': ['if', [['x']], [], body],
+            'while': ['while', body], 'for': ['for', body, None]}[kind]
+
+
+def scope_skeletons(quick):
+    """(label, skeleton): one name declared by several blocks.  d = declare/assign, u = use; see _c06_gen.Gen.sk_block."""
+    K = HOWS
+    n = len(K)
+
+    def d(k, name='x'):
+        return ['d', name, k]
+
+    u, uy = ['u', 'x'], ['u', 'y']
+    offs = lambda full, some: range(n) if full else some
+    # declared in a nested block, declared again (another way) after that block has ended
+    for b in INNER:
+        for i in range(n):
+            for j in offs(not quick, (0, 1, 2, 4, 7, 8, 11, 13) if b == 'if' else (1, 4, 8)):
+                k1, k2 = K[i], K[(i + j) % n]
+                yield 'after/%s/%s/%s' % (b, k1, k2), [inner(b, [d(k1), u]), d(k2), u]
+    # the bodies of one if / elif / else ladder declare the same name, and the enclosing block afterwards
+    for i in range(n):
+        for j in offs(not quick, (1, 2, 5)):
+            k1, k2, k3, k4 = K[i], K[(i + j) % n], K[(i + 2 * j) % n], K[(i + 3 * j) % n]
+            yield 'ladder/%s/%s/%s/%s' % (k1, k2, k3, k4), [['if', [d(k1), u], [[d(k2), u]], [d(k3), u]], d(k4), u]
+            if j == 1 or not quick:
+                yield 'ladder2/%s/%s/%s' % (k1, k2, k3), [['if', [d(k1)], [[d(k2)], [d(k3), u]], None], u, d(k1), u]
+    # sibling blocks
+    for b1 in ('if', 'while', 'for'):
+        for b2 in ('if', 'while', 'for'):
+            for i in range(n):
+                for j in (3,) if quick else (1, 3, 7, 11):
+                    k1, k2 = K[i], K[(i + j) % n]
+                    yield 'siblings/%s/%s/%s/%s' % (b1, b2, k1, k2), [inner(b1, [d(k1), u]), ['x'], inner(b2, [d(k2), u])]
+    # two levels
+    for b1 in INNER:
+        for b2 in INNER:
+            for i in range(0, n, 1 if not quick else 3):
+                k1, k2, k3 = K[(i + INNER.index(b1)) % n], K[(i + 5 + INNER.index(b2)) % n], K[(i + 9) % n]
+                yield 'nested/%s/%s/%s/%s/%s' % (b1, b2, k1, k2, k3), [inner(b1, [inner(b2, [d(k1), u]), d(k2), u]), d(k3), u]
+    # declared in a nested block, then by the enclosing block: a later nested block uses the enclosing block's variable
+    for b in INNER:
+        for i in range(n):
+            for j in (2,) if quick else (0, 2, 6, 10):
+                k1, k2 = K[i], K[(i + j) % n]
+                yield 'later-outer/%s/%s/%s' % (b, k1, k2), [inner(b, [d(k1)]), d(k2), inner(b, [u, d(k2), u]), u]
+                yield 'two-names/%s/%s/%s' % (b, k1, k2), [d(k1, 'y'), inner(b, [d(k2), uy, d(k1, 'y'), u]),
+                                                           inner(INNER[(INNER.index(b) + 1) % 5], [d(k1), u, uy]), d(k2), u, uy]
+    # loop variables
+    for i in range(n):
+        k = K[i]
+        for b in INNER if not quick else [INNER[i % 5]]:
+            yield 'loop-variable/%s/%s' % (b, k), [inner(b, [['for', [u], 'x'], u]), d(k), u]
+        yield 'loop-body/%s' % k, [['for', [d(k, 'y'), uy, u], 'x'], u, d(K[(i + 1) % n], 'y'), uy]
+
+
+def scope_cases(quick):
+    for idx, (label, sk) in enumerate(scope_skeletons(quick)):
+        for home in ([HOMES[idx % len(HOMES)]] if quick else HOMES):
+            yield make_case(home, 'scope/%s/%s' % (home, label), 0, None, 0.5 if idx % 4 == 3 else None, sk)
+
+
+@item('scopes', stands_in_for=['bridgepoint.prebuild.SymbolTable', 'bridgepoint.prebuild.ActionPrebuilder'],
+      bound='one variable name declared by several blocks: in a nested block (if / elif / else / while / for each body) and again after '
+            'it has ended, in every body of an if/elif/else ladder, in sibling blocks, two levels deep, by a nested and later by the '
+            'enclosing block, as for-each loop variable; each declaration one of 15 forms (transient of 6 types, create, select any/many/'
+            'where, select related, instance handle, invocation result) of different types, followed by a use; quick: one action home '
+            'per shape (rotating) and 1-8 rotations of the pairs of forms, thorough: all 6 homes, all pairs for '
+            'nested-then-after and the ladders, 4 rotations for the other shapes',
+      shards=4, weight=2)
+def scopes(ctx):
+    for i, case in enumerate(scope_cases(ctx.quick)):
         if i % ctx.nshards != ctx.shard:
             continue
         if ctx.expired():
             ctx.exhausted = False
             break
-        check_case(ctx, make_case(home, gen, size))
+        check_case(ctx, case)
+    else:
+        ctx.exhausted = True
+
+
+def random_cases(quick, seed):
+    """(home, generator seed, size, probability of re-using the name of a variable of a finished block)"""
+    sizes = [2, 3, 4, 5, 6, 8, 10, 12] if quick else [2, 3, 4, 5, 6, 8, 10, 12, 16, 20, 25]
+    per = 48 if quick else 800
+    for size in sizes:
+        for n in range(per):
+            for home in HOMES[:4] if n % 3 else HOMES:
+                yield (home, 'rnd/%s/%s/%d/%d' % (seed, home, size, n), size, 0.6 if n % 2 and size > 2 else None)
+
+
+@item('random-programs', stands_in_for=['bridgepoint.prebuild.prebuild_action', 'bridgepoint.prebuild.ActionPrebuilder'],
+      bound='seeded random programs of 2..12 (quick) / 2..25 (thorough) statements, nesting depth <= 3, expressions of depth <= 3 over '
+            'literals, variables, attribute/parameter reads, enumerators, constants, arithmetic, comparisons, and/or/not, cardinality/empty/'
+            'not_empty, invocations with named parameters; 48 (quick) / 800 (thorough) programs per size and home, every second one '
+            'naming new variables like variables of finished blocks (probability 0.6); non-trivial = distinct text',
+      shards=9, weight=3)
+def random_programs(ctx):
+    for i, (home, gen, size, reuse) in enumerate(random_cases(ctx.quick, ctx.seed)):
+        if i % ctx.nshards != ctx.shard:
+            continue
+        if ctx.expired():
+            ctx.exhausted = False
+            break
+        check_case(ctx, make_case(home, gen, size, None, reuse))
     else:
         ctx.exhausted = True
 
